@@ -348,7 +348,7 @@ let run_oracle d0 ops implfile =
             let dom = wf && wft in
             let route_verdicts (r : route) =
               Printf.sprintf "C01=%s C02=%s C06=%s" (v01 (valid_itinerary_b d s p acc egr r))
-                (v01 (limits_ok_b d s p r)) (v01 (totals_ok_b d p r)) in
+                (v01 (limits_ok_b d s p r)) (v01 (totals_ok_b d p r && walk_dists_ok_b d r)) in
             let status_ok = (match toks with _ :: "ok" :: _ -> true | _ -> false) in
             let status_noroute = (match toks with _ :: "noroute" :: _ -> true | _ -> false) in
             let reason = (match toks with _ :: "noroute" :: r :: _ -> ios r | _ -> -1) in
@@ -535,6 +535,9 @@ let run_osrm () =
     | "nodurations" -> XStatus (true, Some (JObj [ (S (S O), JStr) ]))
     | "nulls" -> table (List.map (fun _ -> JNull) durs) (List.map (fun _ -> JNull) dists)
     | "fewer" -> let k = 1 + n / 2 in table (take k durs) (take k dists)
+    | "fewer_dist" -> let k = 1 + n / 2 in table durs (take k dists)
+    | "fewer_dur" -> let k = 1 + n / 2 in table (take k durs) dists
+    | "nodistances" -> XStatus (true, Some (JObj [ (O, JArr [ JArr durs ]) ]))
     | "more" -> table (durs @ [ num 10 ]) (dists @ [ num 10 ])
     | _ -> table durs dists in
   match osrm_rows x asked maxt with
@@ -651,6 +654,10 @@ let inconsistency (d : data) (f : fs) (name : string) : fs =
      | n :: _ -> (match f.f_stop0 n with
          | FDecoded (_ :: _) -> { f with f_stop0 = at_id f.f_stop0 n garbled }
          | _ -> f))
+  | "nodefile_negative_walk_time" ->
+    (* the LAST row of every stop file gets the walking time -7: the row is skipped (nodes_cache_fetcher.cpp, /repo 7fd3701, D15) *)
+    let rec map_last g = function [] -> [] | [x] -> [g x] | x :: tl -> x :: map_last g tl in
+    { f with f_stop0 = (fun n -> map_dec (map_last (fun r -> { r with fm_time = z_of_int (-7) })) (f.f_stop0 n)) }
   | "path_unknown_stop" ->
     { f with f_paths = map_dec (map_first_such (fun p -> p.pm_nodes <> []) (fun p -> { p with pm_nodes = map_first (fun _ -> unk) p.pm_nodes })) f.f_paths }
   | "path_unknown_line" -> { f with f_paths = map_dec (map_first (fun p -> { p with pm_line = unk })) f.f_paths }
